@@ -89,10 +89,13 @@ func ReadHeader(h *protocol.ResponseHeader, r network.Reader) error {
 func WriteHeader(h *protocol.ResponseHeader, w network.Writer) error {
 	header := h.Header()
 	h.SetHeaderLength(len(header))
-	_, err := w.WriteBinary(header)
+	// header is the scratch buffer of h, which the next header call rewrites, while WriteBinary
+	// may keep a reference until Flush (a hijacked body writer does not flush here): copy it.
+	buf, err := w.Malloc(len(header))
 	if err != nil {
 		return err
 	}
+	copy(buf, header)
 	return nil
 }
 
